@@ -421,6 +421,15 @@ pub fn gen_steps(sw: &mut Rng, wl: &mut Rng, sheets: usize, n: usize) -> Vec<Ste
     let cw: [u32; 13] = if grid_heavy { [4, 1, 3, 1, 2, 1, 3, 1, 1, 1, 1, sw.below(2) as u32, sw.below(2) as u32] } else { cw };
     let cfg = world::GenCfg { sheets, ncells: 21, alpha, w: cw };
     let mut steps = Vec::new();
+    if sw.chance(1, 30) {
+        // a dozen sheets that each carry a comment (part numbers reach two digits: comments10.xml, ...)
+        for k in 0..(11 + sw.usize(3)) {
+            if k >= sheets {
+                steps.push(Step::O(Op::NewSheet { name: format!("Many{}", k) }));
+            }
+            steps.push(Step::O(Op::Comment { sheet: k, cell: "B2".to_string(), author: "alice".to_string(), text: format!("note for sheet {}", k) }));
+        }
+    }
     for i in 0..n {
         let tag = format!("t{}", i);
         match wl.usize(12) {
